@@ -876,6 +876,18 @@ class Evaluator:
         if st.orelse or any(isinstance(n, (ast.Yield, ast.YieldFrom)) for b in st.body for n in ast.walk(b)):
             return None
         it = st.iter
+        if isinstance(it, ast.Name) and sc.lookup(it.id) is not None:
+            # a local table: plan = ((..), (..)); for a, b in plan: ...   (elements addressed as plan[i])
+            lv = sc.lookup(it.id)
+            if lv.op in ("tuple", "list") and 1 <= len(lv.elts) <= 8 and not any(e.op == "star" for e in lv.elts) and it.id not in _assigned_names(st.body):
+                out = []
+                for i in range(len(lv.elts)):
+                    sub_ = ast.Subscript(value=ast.Name(id=it.id, ctx=ast.Load()), slice=ast.Constant(value=i), ctx=ast.Load())
+                    ast.copy_location(sub_, it)
+                    ast.fix_missing_locations(sub_)
+                    out.append(sub_)
+                return out
+            return None
         if isinstance(it, ast.Name) and sc.lookup(it.id) is None:
             bl = mod.top.get(it.id)
             if bl and len(bl) == 1 and bl[-1][0] == "assign" and not _has_def_named(st, it.id):
